@@ -262,7 +262,7 @@ def _analyze_command(
                 inner_decision = _analyze_node(part.command, config, cwd, remote=remote)
                 if inner_decision.action != "allow":
                     direction = getattr(part, "direction", "?")
-                    return Decision(
+                    inner_decision = Decision(
                         inner_decision.action,
                         f"process substitution {direction}(...): {inner_decision.reason}",
                         children=[inner_decision],
@@ -272,7 +272,7 @@ def _analyze_command(
                 # Command substitution: $(...)
                 inner_decision = _analyze_node(part.command, config, cwd, remote=remote)
                 if inner_decision.action != "allow":
-                    return Decision(
+                    inner_decision = Decision(
                         inner_decision.action,
                         f"command substitution: {inner_decision.reason}",
                         children=[inner_decision],
@@ -290,29 +290,24 @@ def _analyze_command(
                     outer_result = handler.classify(HandlerContext(words[base_idx:]))
                     if outer_result.action != "allow":
                         inner_cmd = _get_word_value(word).strip("$()")
-                        return Decision("ask", f"cmdsub injection risk: {inner_cmd}")
+                        decisions.append(
+                            Decision("ask", f"cmdsub injection risk: {inner_cmd}")
+                        )
             elif part_kind == "param":
                 # Parameter expansion - check for cmdsubs in arg (raw string)
                 arg = getattr(part, "arg", None)
                 if arg and isinstance(arg, str):
-                    param_decisions = _analyze_string_cmdsubs(
-                        arg, config, cwd, remote=remote
+                    decisions.extend(
+                        _analyze_string_cmdsubs(arg, config, cwd, remote=remote)
                     )
-                    for pd in param_decisions:
-                        if pd.action != "allow":
-                            return pd
-                    decisions.extend(param_decisions)
 
     # 2. Check redirects
-    redirect_decisions = _analyze_redirects(node, config, cwd, remote=remote)
-    for rd in redirect_decisions:
-        if rd.action != "allow":
-            return rd
-    decisions.extend(redirect_decisions)
+    decisions.extend(_analyze_redirects(node, config, cwd, remote=remote))
 
     # 3. Check the command itself
     if not words:
-        return Decision("allow", "empty command")
+        decisions.append(Decision("allow", "empty command"))
+        return _combine(decisions)
 
     # Conditional test commands ([ and test) - read-only, safe after cmdsub check
     if base in ("[", "test"):
